@@ -132,6 +132,19 @@ func (g *Gen) instr(st *State, in ssa.Instruction) {
 	case *ssa.MakeChan:
 		r := g.allocRef(st, x.Name())
 		g.env[x] = scalar(r, x.Type())
+		if g.C != nil && g.C.ChanState {
+			// chanstate: a new channel is open and its capacity is ghost state
+			sz := g.val(st, x.Size)
+			if sz.K == VScalar && sz.T != nil {
+				for _, gc := range []struct {
+					n string
+					v *Term
+				}{{"O:ghost.chancap", sz.T}, {"O:ghost.closed", IntLit(0)}} {
+					h := g.heapGet(st, gc.n, ArraySort(SInt, SInt))
+					g.heapSet(st, gc.n, ArraySort(SInt, SInt), Store(h, r, gc.v))
+				}
+			}
+		}
 	case *ssa.MakeClosure:
 		g.makeClosure(st, x)
 	case *ssa.Lookup:
@@ -342,6 +355,17 @@ func (g *Gen) unop(st *State, x *ssa.UnOp) {
 			// a captured variable that is never reassigned: its value on entry
 			ls = g.entry
 			g.Assumed["captured variables assigned only by their declaration keep their value (no closure assigns them; checked on the SSA form)"] = true
+		}
+		if al, ok := x.X.(*ssa.Alloc); ok && al.Heap {
+			if sv := singleDominatingStore(al, x); sv != nil {
+				// a local assigned exactly once (by no closure either) and read after that
+				// assignment: callees cannot have changed it, whatever they are given
+				if _, bound := g.env[sv]; bound || isConstLike(sv) {
+					g.Assumed["captured variables assigned only by their declaration keep their value (no closure assigns them; checked on the SSA form)"] = true
+					g.bind(st, x, g.val(st, sv))
+					return
+				}
+			}
 		}
 		v := g.load(ls, a, x.Type())
 		g.bind(st, x, v)
@@ -777,4 +801,45 @@ func (g *Gen) panicInstr(st *State, x *ssa.Panic) {
 		g.BindErrs = append(g.BindErrs, fmt.Sprintf("panics_if: %v", err))
 	}
 	g.oblige(st, "no-panic", "", "explicit panic is unreachable", x.Pos(), False)
+}
+
+func isConstLike(v ssa.Value) bool {
+	switch v.(type) {
+	case *ssa.Const, *ssa.Function, *ssa.Global, *ssa.Builtin:
+		return true
+	}
+	return false
+}
+
+// singleDominatingStore: the local variable cell al is assigned exactly once in its
+// function and by no closure, its address is used for nothing else, and that one store
+// comes before the load on every path; returns the stored value.
+func singleDominatingStore(al *ssa.Alloc, load *ssa.UnOp) ssa.Value {
+	if !cellAssignedOnce(al, 1) {
+		return nil
+	}
+	var st *ssa.Store
+	for _, r := range *al.Referrers() {
+		if s, ok := r.(*ssa.Store); ok && s.Addr == al {
+			st = s
+		}
+	}
+	if st == nil || st.Block() == nil || load.Block() == nil {
+		return nil
+	}
+	if st.Block() == load.Block() {
+		for _, in := range st.Block().Instrs {
+			if in == ssa.Instruction(st) {
+				return st.Val
+			}
+			if in == ssa.Instruction(load) {
+				return nil
+			}
+		}
+		return nil
+	}
+	if st.Block().Dominates(load.Block()) {
+		return st.Val
+	}
+	return nil
 }
